@@ -59,6 +59,27 @@ func (e *Engine) callBuiltin(st *State, f *FuncV, args []Value, site *ssa.Call) 
 				st.heap[x.Obj] = &MapObj{}
 			}
 			return one(st, nil)
+		case *SliceV:
+			if x.IsNil() {
+				return one(st, nil)
+			}
+			var outs []Outcome
+			for _, cs := range e.concSlice(st, x) {
+				n := int(cs.s.N.Val)
+				if n > 0 {
+					root := e.get(cs.st, x.Obj)
+					arr := getPath(root, x.Path).(*ArrayV)
+					el := make([]Value, len(arr.E))
+					copy(el, arr.E)
+					z := e.zeroOfValue(arr.E[x.Off])
+					for i := 0; i < n; i++ {
+						el[x.Off+i] = z
+					}
+					cs.st.heap[x.Obj] = setPath(root, x.Path, &ArrayV{E: el})
+				}
+				outs = append(outs, Outcome{st: cs.st})
+			}
+			return outs
 		}
 	case "print", "println":
 		return one(st, nil)
